@@ -14,7 +14,7 @@ def genNormalizeExtension (extension : OStr) : Except Exc OStr :=
   if (extension).isNone then
     .ok (none)
   else
-    ((firstCharIsNot '.' extension)).bind fun tmp0 =>
+    Except.bind ((firstCharIsNot '.' extension)) fun tmp0 =>
     if tmp0 then
       let extension0 := (strPrepend '.' extension)
       .ok ((strLower extension0))
@@ -50,7 +50,7 @@ def genParseAndValidate (filepath : Fp) (extension : OStr) (extensionsmap : List
       .error Exc.valueError
     else
       if (extension).isSome then
-        ((genNormalizeExtension extension)).bind fun extension0 =>
+        Except.bind ((genNormalizeExtension extension)) fun extension0 =>
           if ((extension0 != knownextension1)) then
             .error Exc.valueError
           else
@@ -79,7 +79,7 @@ def genImporterFor (filepath : Fp) (extensionsmap : List (String × String)) : E
 
 def genEnforcePaths (filepath : Fp) : Except Exc Fp :=
   if ((Fp.hasName filepath) && (!(Fp.isPath filepath))) then
-    ((Fp.getName filepath)).bind fun filepath0 =>
+    Except.bind ((Fp.getName filepath)) fun filepath0 =>
       if (Fp.isStrOrPath filepath0) then
         .ok (filepath0)
       else
